@@ -186,21 +186,19 @@ def _tol_compare(fn: FuncInfo):
 
 
 def tolerance_siblings(repo: Repo) -> RuleRun:
-    r = RuleRun(PROP, "C05.TOLERANCE-SIBLINGS", floor=3, what="find_unique, find_duplicated, Point.__eq__: norm(delta) < TOL, same constant, strict")
+    from .. import tolerance
+
+    r = RuleRun(PROP, "C05.TOLERANCE-SIBLINGS", floor=3, what="find_unique, find_duplicated, Point.__eq__: purely absolute coincidence test with the library tolerance TOL, strict; both lookups scan the whole table")
     fns = [
         repo.func("lists.vertex_list.VertexList.find_unique"),
         repo.func("lists.vertex_list.VertexList.find_duplicated"),
         repo.func("construct.point.Point.__eq__"),
     ]
-    consts = set()
+    tolerance.check_functions(r, repo, [f.qualname for f in fns], scan_modules=("lists.vertex_list",))
     for fn in fns:
-        cmps = _tol_compare(fn)
-        r.require(len(cmps) >= 1, f"{fn.qualname}: no comparison against TOL found")
-        for n, op, is_norm, rhs in cmps:
-            tgt = repo.resolve_expr(fn.module, n.comparators[0])
-            consts.add(f"{rhs.split('.')[-1]}={ast.unparse(tgt[1])}" if isinstance(tgt, tuple) and tgt[0] == "const" else rhs)
-            r.check(op == "Lt" and is_norm, fn, "norm(a - b) < TOL", f"{fn.qualname} tests coincidence with '{ast.unparse(n)}' - the siblings use the strict 'norm(a - b) < TOL'", n, key="compare")
-    r.check(len(consts) == 1, fns[0], f"one tolerance constant ({consts})", f"the coincidence tests use different tolerance constants: {sorted(consts)}", key="same-constant")
+        for i, c in enumerate(tolerance.tests_in(repo, fn.module, fn.node)):
+            if c.rtol == 0 and not c.negated:
+                r.check(c.strict, fn, "strict '<'", f"{fn.qualname} tests coincidence with '{ast.unparse(c.node)}' - the siblings use the strict 'norm(a - b) < TOL'", c.node, key=f"strict#{i}")
     # find_unique / find_duplicated scan the complete table
     for fn, table in ((fns[0], "self.vertices"), (fns[1], "self.duplicated")):
         loops = [n for n in walk_shallow(fn.node) if isinstance(n, ast.For)]
@@ -398,4 +396,14 @@ def add_scenarios(repo: Repo) -> RuleRun:
 
 add_scenarios.rule_id = "C05.ADD-SCENARIOS"
 
-RULES = [lookup_before_create, dense_index, tolerance_siblings, eq_hash, slave_only, corner_patches, add_scenarios]
+def merge_state_survives(repo: Repo) -> RuleRun:
+    """The slave-duplicate exception rests on the merged pairs the user declared; clear()/backport() must not drop them (a re-assembly would then share vertices across the merged interface). Same rule as C12.CLEAR-COMPLETE."""
+    from ..report import rebrand
+    from . import c12
+
+    return rebrand(c12.clear_complete(repo), PROP, "C05.USER-STATE-SURVIVES")
+
+
+merge_state_survives.rule_id = "C05.USER-STATE-SURVIVES"
+
+RULES = [lookup_before_create, dense_index, tolerance_siblings, eq_hash, slave_only, corner_patches, add_scenarios, merge_state_survives]
